@@ -85,6 +85,15 @@ def gen(ctx):
         lines.append('bmp.new %d %d %d %d' % (0, 0, w, hh))
         if w % 8 == 0:
             lines.append('bmp.new %d %d %d %d' % (3, 5, 3 + w, 5 + hh))
+    # images whose buffer is longer than Stride*Dy (a sub-image that shares its parent's buffer, a reused destination):
+    # the bytes behind the last row are not pixels.  Every width that is a multiple of 8 and a sample of the others.
+    for w in [x for x in range(1, 185) if x % 8 == 0 or x % 13 == 0]:
+        img = mkimg(r, w, r.range(1, 5))
+        longer = img[:5] + (img[5] + bytes([0xFF]) * r.range(1, 40),)
+        lines.append('bmp.ones %s' % show(longer))
+        lines.append('bmp.at %s %d %d' % (show(longer), w - 1, img[3] - 1))
+        big = mkimg(r, w + r.range(0, 16), img[3] + r.range(1, 4))
+        lines.append('bmp.reuse %s %s' % (show(big), show(img)))
     # Mask with a function map and a pattern built by New-sized canvases (stride of New) against minimal-stride inputs
     # bounds mismatch must panic; the full symbol sizes
     a, b = mkimg(r, 21, 21), mkimg(r, 22, 21)
@@ -108,6 +117,9 @@ def expect(line):
         if inp[:4] != used[:4]:
             return 'panic'
         return 'ok ' + show(ref_mask(inp, used, pat))
+    if t[0] == 'bmp.reuse':
+        img = parse(t[2])
+        return 'ok %d %s maskreuse=same' % (sum(px(img, x, y) for y in range(img[3]) for x in range(img[2])), t[2])
     img = parse(t[1])
     w, h, stride = img[2], img[3], img[4]
     if t[0] == 'bmp.ones':
@@ -138,7 +150,7 @@ def oracle(ctx, lines, out):
                 v.append({'key': 'bmp.new:w%%8=%d' % ((int(t[3]) - int(t[1])) % 8), 'lines': [l], 'expect': e[:200], 'got': o[:200],
                           'detail': 'bitmap.New(%s) is not the zeroed image with stride ceil(width/8)' % ','.join(t[1:5])})
                 continue
-            img = parse(t[1])
+            img = parse(t[2] if t[0] == 'bmp.reuse' else t[1])
             v.append({'key': '%s:w%%8=%d' % (t[0], img[2] % 8), 'lines': [l], 'expect': e[:400], 'got': o[:400],
                       'detail': '%s on a %dx%d image differs from the pixel-at-a-time reference' % (t[0], img[2], img[3])})
     return v
@@ -147,6 +159,8 @@ def oracle(ctx, lines, out):
 def nontrivial(line, out):
     t = line.split()
     if t[0] == 'bmp.new':
+        return True
+    if t[0] == 'bmp.reuse':
         return True
     img = parse(t[1])
     if t[0] == 'bmp.mask':
